@@ -60,7 +60,7 @@ def _py(lengths):
 CONTENTS = [
     _py([5, 32]),
     _py([5, 33]),  # differs from content 0 in one function's length only
-    tree.flat_file("JavaScript", [3, 61]),
+    tree.flat_file("JavaScript", [3, 61]).replace("function fn1(", "function fn0(", 1),  # both functions carry the SAME name: measurements are a list, not a name-keyed map
     "def f(\n",  # malformed
     "",
     _py([5, 32]).replace("\n\ndef ", "\n\r\ndef ", 1),  # content 0 with one lone carriage return (a line break to the tool) and nothing else changed
